@@ -40,8 +40,10 @@ fn fx(v: f64) -> i64 {
         (v * FP).floor() as i64
     }
 }
+thread_local! { static WEXP: std::cell::Cell<i32> = std::cell::Cell::new(4); }
+/// value * 2^wexp as an exact integer (weights are dyadic: w = w16 / 2^wexp)
 fn sc16(v: f64) -> i64 {
-    let s = v * 16.0;
+    let s = v * 2f64.powi(WEXP.with(|w| w.get()));
     if s.is_finite() && s == s.round() && s.abs() < 2.0e9 {
         s as i64
     } else {
@@ -80,11 +82,13 @@ pub struct TdSut {
     pub xn: i64,
     pub ghost: Ghost,
     pub reads: u64,
+    pub wexp: i32,
     /// C19 lock-step: after a clear(), a freshly constructed digest that receives the same calls
     pub shadow: Option<Dg>,
 }
 impl TdSut {
     fn layout(&self, d: &Dg) -> Value {
+        WEXP.with(|w| w.set(self.wexp));
         let (cs, bl, ns) = dg!(d, x => x.verif_layout());
         let conv = |v: &Vec<(f64, f64)>| v.iter().map(|(c, s)| vec![sc16(*c), sc16(*s)]).collect::<Vec<_>>();
         let (mn, mx) = dg!(d, x => (x.min(), x.max()));
@@ -93,6 +97,7 @@ impl TdSut {
     }
     /// all public read methods, evaluated on a clone (reads trigger merges)
     fn observe(&self) -> Value {
+        WEXP.with(|w| w.set(self.wexp));
         let c = self.d.clone();
         let r = guarded(|| {
             dg!(&c, d => {
@@ -131,8 +136,8 @@ impl TdSut {
                     i = j;
                 }
                 // mean must be exactly sum / count (both exact for these inputs)
-                let gw = self.ghost.w16 as f64 / 16.0;
-                let gx = self.ghost.xw16 as f64 / 16.0;
+                let gw = self.ghost.w16 as f64 / 2f64.powi(self.wexp);
+                let gx = self.ghost.xw16 as f64 / 2f64.powi(self.wexp);
                 let mean_exact = if self.ghost.any { mean == gx / gw } else { mean.is_nan() };
                 json!({"count16": sc16(count), "sum16": sc16(sum), "mean_exact": mean_exact, "empty": empty, "ncent": ncent,
                        "mn": if mn.is_finite() { mn as i64 } else { INF }, "mx": if mx.is_finite() { mx as i64 } else { -INF },
@@ -154,13 +159,14 @@ impl Sut for TdSut {
         let dd = cfg["dd"].as_u64().unwrap_or(1);
         let mb = cfg["mb"].as_u64().unwrap_or(0) as usize;
         TdSut { d: make(&scale, dn as f64 / dd as f64, mb), scale, dn, dd, mb, qd: cfg["qd"].as_i64().unwrap_or(8),
-                xlo2: cfg["xlo2"].as_i64().unwrap_or(-2), xn: cfg["xn"].as_i64().unwrap_or(20), ghost: Ghost::fresh(), reads: 0, shadow: None }
+                xlo2: cfg["xlo2"].as_i64().unwrap_or(-2), xn: cfg["xn"].as_i64().unwrap_or(20), ghost: Ghost::fresh(), reads: 0, wexp: cfg["wexp"].as_i64().unwrap_or(4) as i32, shadow: None }
     }
     fn uid(&self) -> usize {
         (self.dn * 7919 + self.dd * 104729 + self.mb as u64 * 31 + self.scale.as_bytes()[1] as u64) as usize
     }
     fn header(&self) -> Value {
-        json!({"scale": self.scale, "dn": self.dn, "dd": self.dd, "mb": self.mb, "qd": self.qd, "xlo2": self.xlo2, "xn": self.xn})
+        json!({"scale": self.scale, "dn": self.dn, "dd": self.dd, "mb": self.mb, "qd": self.qd, "xlo2": self.xlo2, "xn": self.xn,
+               "wexp": self.wexp, "unitw": if self.wexp <= 30 { 1i64 << self.wexp } else { -1 }})
     }
     fn is_alt_worthy(rec: &Value) -> bool {
         rec["res"] == "cleared"
@@ -178,8 +184,8 @@ impl Sut for TdSut {
             "ins" => {
                 let x = op["x"].as_i64().unwrap();
                 let w16 = op["w16"].as_i64().unwrap();
-                let w = w16 as f64 / 16.0;
-                let plain = w16 == 16 && (self.ghost.n % 2 == 0);
+                let w = w16 as f64 / 2f64.powi(self.wexp);
+                let plain = w == 1.0 && (self.ghost.n % 2 == 0);
                 if let Some(sh) = self.shadow.as_mut() {
                     let _ = if plain { dg!(sh, d => guarded(|| d.insert(x as f64))) } else { dg!(sh, d => guarded(|| d.insert_weighted(x as f64, w))) };
                 }
@@ -197,7 +203,7 @@ impl Sut for TdSut {
                             g.mn = g.mn.min(x);
                             g.mx = g.mx.max(x);
                             g.any = true;
-                            g.unit &= w16 == 16;
+                            g.unit &= w == 1.0;
                             g.n += 1;
                         } else {
                             tags.push("zero-weight");
@@ -324,7 +330,9 @@ pub fn drive(args: &[String]) {
         let (dn, dd) = [(11u64, 10u64), (3, 2), (2, 1), (4, 1), (10, 1), (100, 1), (1000, 1)][rng.below(7) as usize];
         let mb = [0u64, 1, 3, 10, 100][rng.below(5) as usize];
         let vmax = [3i64, 15, 200][rng.below(3) as usize];
-        let cfg = json!({"scale": scale, "dn": dn, "dd": dd, "mb": mb, "qd": 8, "xlo2": -2, "xn": (2 * vmax + 5).min(45)});
+        // weights across many orders of magnitude: one scenario in four uses weights k * 2^-wexp with wexp in {40, 64, 200}
+        let wexp = if sci % 4 == 3 { [40i64, 64, 200][rng.below(3) as usize] } else { 4 };
+        let cfg = json!({"scale": scale, "dn": dn, "dd": dd, "mb": mb, "qd": 8, "xlo2": -2, "xn": (2 * vmax + 5).min(45), "wexp": wexp});
         let mut steps: Vec<Value> = vec![];
         let n_ops = 20 + rng.below(60);
         let weighted = rng.chance(1, 2);
@@ -338,7 +346,7 @@ pub fn drive(args: &[String]) {
         for _ in 0..n_ops {
             let x = rng.below(100);
             if x < 70 {
-                let w16 = if weighted { [0i64, 1, 4, 16, 16, 32, 64, 1024][rng.below(8) as usize] } else { 16 };
+                let w16 = if wexp != 4 { [0i64, 1, 1, 2, 3, 16, 1000][rng.below(7) as usize] } else if weighted { [0i64, 1, 4, 16, 16, 32, 64, 1024][rng.below(8) as usize] } else { 16 };
                 let v = match rng.below(3) { 0 => rng.below(vmax as u64 + 1) as i64, 1 => [0, vmax][rng.below(2) as usize], _ => (rng.below(vmax as u64 + 1) / 2) as i64 };
                 steps.push(json!({"obj": "a", "op": {"name":"ins","x": v, "w16": w16}}));
             } else if x < 95 {
@@ -408,4 +416,185 @@ pub fn rank(args: &[String]) {
     }
     out.flush();
     println!("STATS {}", json!({"digests": n_dig}));
+}
+
+// ---------------------------------------------------------------------------------------------
+// Real-valued family (C16): arbitrary f64 values and weights (not representable as TLC integers).
+// The harness compares against compensated reference sums and the exact extremes and records the
+// outcome of each comparison; P_TDigestReal judges the recorded outcomes.
+#[derive(Clone)]
+pub struct TdRealSut {
+    pub d: Dg,
+    pub cfgv: Value,
+    // Neumaier-compensated sums of w and x*w, sum of |w| and |x*w|
+    pub sw: (f64, f64),
+    pub sxw: (f64, f64),
+    pub aw: f64,
+    pub axw: f64,
+    pub mn: f64,
+    pub mx: f64,
+    pub any: bool,
+}
+fn nadd(acc: &mut (f64, f64), v: f64) {
+    let t = acc.0 + v;
+    if acc.0.abs() >= v.abs() {
+        acc.1 += (acc.0 - t) + v;
+    } else {
+        acc.1 += (v - t) + acc.0;
+    }
+    acc.0 = t;
+}
+impl TdRealSut {
+    fn observe(&self) -> Value {
+        let c = self.d.clone();
+        let r = guarded(|| {
+            dg!(&c, d => {
+                let (count, sum, mean) = (d.count(), d.sum(), d.mean());
+                let (rw, rxw) = (self.sw.0 + self.sw.1, self.sxw.0 + self.sxw.1);
+                let tol = |a: f64| 1e-9 * a + f64::MIN_POSITIVE;
+                let count_close = (count - rw).abs() <= tol(self.aw);
+                let sum_close = (sum - rxw).abs() <= tol(self.axw);
+                let mean_close = if self.any { (mean * rw - rxw).abs() <= 4.0 * tol(self.axw) } else { mean.is_nan() };
+                let (min_exact, max_exact) = if self.any { (d.min() == self.mn, d.max() == self.mx) } else { (true, true) };
+                json!({"count_close": count_close, "sum_close": sum_close, "mean_close": mean_close, "min_exact": min_exact, "max_exact": max_exact,
+                       "empty": d.is_empty(), "count": count, "sum": sum, "min": format!("{:e}", d.min()), "max": format!("{:e}", d.max())})
+            })
+        });
+        match r {
+            Ok(v) => v,
+            Err(m) => json!({"panic": m}),
+        }
+    }
+}
+impl Sut for TdRealSut {
+    const TAG: &'static str = "tdr";
+    const COMPARE_MSTATE: bool = false;
+    fn new(cfg: &Value) -> Self {
+        let scale = cfg["scale"].as_str().unwrap_or("K0").to_string();
+        let delta = cfg["dn"].as_u64().unwrap_or(4) as f64 / cfg["dd"].as_u64().unwrap_or(1) as f64;
+        TdRealSut { d: make(&scale, delta, cfg["mb"].as_u64().unwrap_or(0) as usize), cfgv: cfg.clone(), sw: (0.0, 0.0), sxw: (0.0, 0.0), aw: 0.0, axw: 0.0,
+                    mn: f64::INFINITY, mx: f64::NEG_INFINITY, any: false }
+    }
+    fn header(&self) -> Value {
+        self.cfgv.clone()
+    }
+    fn uid(&self) -> usize {
+        self.cfgv.to_string().len() * 31 + self.cfgv["dn"].as_u64().unwrap_or(0) as usize
+    }
+    fn apply(&mut self, op: &Value, _other: Option<&Self>) -> Value {
+        let name = op["name"].as_str().unwrap();
+        let mut rec = json!({});
+        let obs_pre = self.observe();
+        let res: String = match name {
+            "ins" => {
+                let x: f64 = op["xs"].as_str().unwrap().parse().unwrap();
+                let w: f64 = op["ws"].as_str().unwrap().parse().unwrap();
+                rec["zero"] = json!(w == 0.0);
+                match dg!(&mut self.d, d => guarded(|| d.insert_weighted(x, w))) {
+                    Ok(()) => {
+                        if w > 0.0 {
+                            nadd(&mut self.sw, w);
+                            nadd(&mut self.sxw, x * w);
+                            self.aw += w.abs();
+                            self.axw += (x * w).abs();
+                            self.mn = self.mn.min(x);
+                            self.mx = self.mx.max(x);
+                            self.any = true;
+                        }
+                        "ok".into()
+                    }
+                    Err(m) => {
+                        rec["panic"] = json!(m);
+                        "panic".into()
+                    }
+                }
+            }
+            "read" => match dg!(&self.d, d => guarded(|| { d.quantile(0.5); })) {
+                Ok(()) => "ok".into(),
+                Err(m) => {
+                    rec["panic"] = json!(m);
+                    "panic".into()
+                }
+            },
+            "clear" => match dg!(&mut self.d, d => guarded(|| d.clear())) {
+                Ok(()) => {
+                    self.sw = (0.0, 0.0);
+                    self.sxw = (0.0, 0.0);
+                    self.aw = 0.0;
+                    self.axw = 0.0;
+                    self.mn = f64::INFINITY;
+                    self.mx = f64::NEG_INFINITY;
+                    self.any = false;
+                    "cleared".into()
+                }
+                Err(m) => {
+                    rec["panic"] = json!(m);
+                    "panic".into()
+                }
+            },
+            _ => panic!("tool error: unknown op {}", name),
+        };
+        rec["res"] = json!(res);
+        rec["any"] = json!(self.any);
+        if res != "panic" {
+            let o = self.observe();
+            if !o["panic"].is_null() {
+                rec["res"] = json!("panic");
+                rec["panic"] = o["panic"].clone();
+            } else {
+                rec["same_as_before"] = json!(o == obs_pre);
+                rec["obs_post"] = o;
+            }
+        }
+        rec
+    }
+    fn mstate(&self) -> Value {
+        Value::Null
+    }
+}
+
+pub fn drive_real(args: &[String]) {
+    let seed = arg_u64(args, "--seed", 1);
+    let n_sc = arg_u64(args, "--scenarios", 20);
+    let mut out = Out::create(arg(args, "--out").expect("--out"));
+    let mut rng = Prng::new(seed ^ 0x7ea1);
+    for sci in 0..n_sc {
+        let scale = ["K0", "K1", "K2", "K3"][(sci % 4) as usize];
+        let (dn, dd) = [(11u64, 10u64), (2, 1), (10, 1), (100, 1)][rng.below(4) as usize];
+        let mb = [0u64, 1, 5, 50][rng.below(4) as usize];
+        let cfg = json!({"scale": scale, "dn": dn, "dd": dd, "mb": mb});
+        let mut steps: Vec<Value> = vec![];
+        for _ in 0..(15 + rng.below(50)) {
+            let r = rng.below(100);
+            if r < 75 {
+                // values: decimals, huge, tiny, negative; weights: non powers of two over many orders of magnitude
+                let x = match rng.below(6) {
+                    0 => (rng.below(2001) as f64 - 1000.0) / 10.0,
+                    1 => (rng.below(1000) as f64) * 1e-3 + 0.1,
+                    2 => 1e-200 * (1.0 + rng.below(9) as f64),
+                    3 => -1e15 / (1.0 + rng.below(7) as f64),
+                    4 => 1e12 + rng.below(1000) as f64 / 7.0,
+                    _ => rng.below(10) as f64,
+                };
+                let w = match rng.below(8) {
+                    0 => 0.0,
+                    1 => 3.0,
+                    2 => 0.3,
+                    3 => 1e-3 * (1.0 + rng.below(9) as f64),
+                    4 => 1e6 / 3.0,
+                    5 => 1e-17 * (1.0 + rng.below(9) as f64),
+                    6 => 1e-200,
+                    _ => 1.0 + rng.below(5) as f64 / 3.0,
+                };
+                steps.push(json!({"obj": "a", "op": {"name":"ins","xs": format!("{:e}", x), "ws": format!("{:e}", w)}}));
+            } else if r < 95 {
+                steps.push(json!({"obj": "a", "op": {"name":"read"}}));
+            } else {
+                steps.push(json!({"obj": "a", "op": {"name":"clear"}}));
+            }
+        }
+        out.put(&json!({"sc": sci, "cfg": cfg, "steps": steps}));
+    }
+    out.flush();
+    println!("STATS {}", json!({"scenarios": n_sc}));
 }
